@@ -142,6 +142,27 @@ pub enum Op {
     OracleMode(OracleMode),
     CanRedel { val: String, flag: bool },
     LegacyWait { addr: String, batch: u64, amt: u128 },
+    // 3.4 state injection (synthesised start states)
+    PokeHubState { ber: u128, ser: u128, bb: u128, bst: u128, lim: u64, phb: u128, lut: u64, lpb: u64 },
+    PokeBatch { id: u64, reqb: u128, reqst: u128 },
+    PokeHist {
+        id: u64,
+        time: u64,
+        bamt: u128,
+        bapplied: u128,
+        bwithdraw: u128,
+        samt: u128,
+        sapplied: u128,
+        swithdraw: u128,
+        released: bool,
+    },
+    PokeWait { addr: String, batch: u64, b: u128, st: u128 },
+    PokeTokBal { tok: Tok, addr: String, amt: u128 },
+    PokeHolder { addr: String, bal: u128, index: u128, pending: u128 },
+    PokeRwState { gi: u128, total: u128, prev: u128 },
+    PokeDel { addr: String, val: String, amt: u128 },
+    PokeUnb { addr: String, val: String, amt: u128, completion: u64 },
+    PokePend { addr: String, val: String, denom: String, amt: u128 },
     // 3.2 instantiate
     InstHub {
         sender: String,
@@ -181,6 +202,22 @@ pub enum Op {
 impl Op {
     pub fn is_reset(&self) -> bool {
         matches!(self, Op::Reset { .. })
+    }
+    /// state-injection operations of section 3.4
+    pub fn is_poke(&self) -> bool {
+        matches!(
+            self,
+            Op::PokeHubState { .. }
+                | Op::PokeBatch { .. }
+                | Op::PokeHist { .. }
+                | Op::PokeWait { .. }
+                | Op::PokeTokBal { .. }
+                | Op::PokeHolder { .. }
+                | Op::PokeRwState { .. }
+                | Op::PokeDel { .. }
+                | Op::PokeUnb { .. }
+                | Op::PokePend { .. }
+        )
     }
     /// transactions of section 3.3 (the only operations that print a message trace)
     pub fn is_transaction(&self) -> bool {
@@ -419,6 +456,51 @@ fn parse_inner(c: &mut Cur) -> Result<Op, String> {
         }),
         "canredel" => Op::CanRedel { val: c.chain_val()?, flag: c.flag()? },
         "legacy_wait" => Op::LegacyWait { addr: c.addr()?, batch: c.u64()?, amt: c.u128()? },
+        "poke_hubstate" => Op::PokeHubState {
+            ber: c.u128()?,
+            ser: c.u128()?,
+            bb: c.u128()?,
+            bst: c.u128()?,
+            lim: c.u64()?,
+            phb: c.u128()?,
+            lut: c.u64()?,
+            lpb: c.u64()?,
+        },
+        "poke_batch" => Op::PokeBatch { id: c.u64()?, reqb: c.u128()?, reqst: c.u128()? },
+        "poke_hist" => Op::PokeHist {
+            id: c.u64()?,
+            time: c.u64()?,
+            bamt: c.u128()?,
+            bapplied: c.u128()?,
+            bwithdraw: c.u128()?,
+            samt: c.u128()?,
+            sapplied: c.u128()?,
+            swithdraw: c.u128()?,
+            released: c.flag()?,
+        },
+        "poke_wait" => Op::PokeWait { addr: c.addr()?, batch: c.u64()?, b: c.u128()?, st: c.u128()? },
+        "poke_tokbal" => {
+            let tok = match c.next()? {
+                "bsei" => Tok::Bsei,
+                "stsei" => Tok::Stsei,
+                t => return Err(format!("bad token `{}`", t)),
+            };
+            Op::PokeTokBal { tok, addr: c.addr()?, amt: c.u128()? }
+        }
+        "poke_holder" => {
+            Op::PokeHolder { addr: c.addr()?, bal: c.u128()?, index: c.u128()?, pending: c.u128()? }
+        }
+        "poke_rwstate" => Op::PokeRwState { gi: c.u128()?, total: c.u128()?, prev: c.u128()? },
+        "poke_del" => Op::PokeDel { addr: c.addr()?, val: c.chain_val()?, amt: c.u128()? },
+        "poke_unb" => Op::PokeUnb {
+            addr: c.addr()?,
+            val: c.chain_val()?,
+            amt: c.u128()?,
+            completion: c.u64()?,
+        },
+        "poke_pend" => {
+            Op::PokePend { addr: c.addr()?, val: c.chain_val()?, denom: c.denom()?, amt: c.u128()? }
+        }
         "inst_hub" => Op::InstHub {
             sender: c.addr()?,
             epoch: c.u64()?,
@@ -692,6 +774,38 @@ impl Op {
             Op::OracleMode(m) => format!("oraclemode {}", m.as_str()),
             Op::CanRedel { val, flag } => format!("canredel {} {}", val, b(*flag)),
             Op::LegacyWait { addr, batch, amt } => format!("legacy_wait {} {} {}", addr, batch, amt),
+            Op::PokeHubState { ber, ser, bb, bst, lim, phb, lut, lpb } => format!(
+                "poke_hubstate {} {} {} {} {} {} {} {}",
+                ber, ser, bb, bst, lim, phb, lut, lpb
+            ),
+            Op::PokeBatch { id, reqb, reqst } => format!("poke_batch {} {} {}", id, reqb, reqst),
+            Op::PokeHist { id, time, bamt, bapplied, bwithdraw, samt, sapplied, swithdraw, released } => {
+                format!(
+                    "poke_hist {} {} {} {} {} {} {} {} {}",
+                    id,
+                    time,
+                    bamt,
+                    bapplied,
+                    bwithdraw,
+                    samt,
+                    sapplied,
+                    swithdraw,
+                    b(*released)
+                )
+            }
+            Op::PokeWait { addr, batch, b, st } => format!("poke_wait {} {} {} {}", addr, batch, b, st),
+            Op::PokeTokBal { tok, addr, amt } => format!("poke_tokbal {} {} {}", tok.name(), addr, amt),
+            Op::PokeHolder { addr, bal, index, pending } => {
+                format!("poke_holder {} {} {} {}", addr, bal, index, pending)
+            }
+            Op::PokeRwState { gi, total, prev } => format!("poke_rwstate {} {} {}", gi, total, prev),
+            Op::PokeDel { addr, val, amt } => format!("poke_del {} {} {}", addr, val, amt),
+            Op::PokeUnb { addr, val, amt, completion } => {
+                format!("poke_unb {} {} {} {}", addr, val, amt, completion)
+            }
+            Op::PokePend { addr, val, denom, amt } => {
+                format!("poke_pend {} {} {} {}", addr, val, denom, amt)
+            }
             Op::InstHub {
                 sender,
                 epoch,
@@ -1161,6 +1275,36 @@ fn cw20_coins(balances: &[(String, u128)]) -> Vec<Cw20Coin> {
     balances.iter().map(|(a, x)| Cw20Coin { address: a.clone(), amount: u(*x) }).collect()
 }
 
+/// state-injection operations of PROTOCOL.md section 3.4 (nothing changes on `Err`)
+fn apply_poke(world: &mut World, op: &Op) -> Result<(), String> {
+    let vi = |v: &str| val_index(v).expect("chain validator");
+    match op {
+        Op::PokeHubState { ber, ser, bb, bst, lim, phb, lut, lpb } => {
+            world.poke_hub_state(*ber, *ser, *bb, *bst, *lim, *phb, *lut, *lpb)
+        }
+        Op::PokeBatch { id, reqb, reqst } => world.poke_batch(*id, *reqb, *reqst),
+        Op::PokeHist { id, time, bamt, bapplied, bwithdraw, samt, sapplied, swithdraw, released } => world
+            .poke_hist(*id, *time, *bamt, *bapplied, *bwithdraw, *samt, *sapplied, *swithdraw, *released),
+        Op::PokeWait { addr, batch, b, st } => world.poke_wait(addr, *batch, *b, *st),
+        Op::PokeTokBal { tok, addr, amt } => world.poke_tokbal(tok.index(), addr, *amt),
+        Op::PokeHolder { addr, bal, index, pending } => world.poke_holder(addr, *bal, *index, *pending),
+        Op::PokeRwState { gi, total, prev } => world.poke_rwstate(*gi, *total, *prev),
+        Op::PokeDel { addr, val, amt } => {
+            world.poke_del(addr, vi(val), *amt);
+            Ok(())
+        }
+        Op::PokeUnb { addr, val, amt, completion } => {
+            world.poke_unb(addr, vi(val), *amt, *completion);
+            Ok(())
+        }
+        Op::PokePend { addr, val, denom, amt } => {
+            world.poke_pend(addr, vi(val), denom_index(denom).expect("denom"), *amt);
+            Ok(())
+        }
+        _ => Err("not a poke operation".to_string()),
+    }
+}
+
 pub fn apply_op(world: &mut World, op: &Op) -> OpResult {
     match op {
         Op::Reset { ut } => {
@@ -1208,6 +1352,16 @@ pub fn apply_op(world: &mut World, op: &Op) -> OpResult {
                 Bucket::multilevel(&mut storage, &[b"wait", &addr_key]);
             OpResult::from(bucket.save(&batch_key, &u(*amt)).map_err(|e| e.to_string()))
         }
+        Op::PokeHubState { .. }
+        | Op::PokeBatch { .. }
+        | Op::PokeHist { .. }
+        | Op::PokeWait { .. }
+        | Op::PokeTokBal { .. }
+        | Op::PokeHolder { .. }
+        | Op::PokeRwState { .. }
+        | Op::PokeDel { .. }
+        | Op::PokeUnb { .. }
+        | Op::PokePend { .. } => OpResult::from(apply_poke(world, op)),
         Op::InstHub { sender, epoch, unbonding, pegfee, threshold, updater, underlying, reward_denom } => {
             let msg = basset::hub::InstantiateMsg {
                 epoch_period: *epoch,
